@@ -493,3 +493,30 @@ package j5schema
 //@   |   && (forall i int {as(*AnyField, result0).Types[i]} :: 0 <= i && i < len(fAny(schema).Types) ==> string(as(*AnyField, result0).Types[i]) == fAny(schema).Types[i])
 //@ func (*AnyField).ToJ5Field
 //@   ensures types: len(fAny(result).Types) == len(s.Types) && (forall i int {fAny(result).Types[i]} :: 0 <= i && i < len(s.Types) ==> fAny(result).Types[i] == string(s.Types[i]))
+
+// ---- strings and keys read back from a compiled field (C04) --------------------------------------------------
+// What the compiler writes for a string (length and pattern rules) and for a key (the id62 pattern, the
+// uuid well-known rule, or a custom pattern next to the j5 key annotation) is read back as the same rules
+// and the same key format. (The well-known pattern table maps the id62 pattern to "id62": read from its
+// initialiser, ASSUMED as a free precondition because the table is a package variable.)
+//@ import id62 "github.com/pentops/j5/lib/id62"
+//@ spec func vStr(ext protoFieldExtensions) *validate.StringRules = as(*validate.FieldConstraints_String_, ext.validate.Type).String_
+//@ spec func hasVStr(ext protoFieldExtensions) bool = ext.validate != nil && typeis(ext.validate.Type, *validate.FieldConstraints_String_) && vStr(ext) != nil
+//@ spec func rStr(f schema_j5pb.IsField_Type) *schema_j5pb.StringField = as(*schema_j5pb.Field_String_, f).String_
+//@ spec func rKey(f schema_j5pb.IsField_Type) *schema_j5pb.KeyField = as(*schema_j5pb.Field_Key, f).Key
+//@ spec func jKey(ext protoFieldExtensions) *ext_j5pb.KeyField = as(*ext_j5pb.FieldOptions_Key, ext.j5.Type).Key
+//@ func buildFromStringProto
+//@   free requires has(wellKnownStringPatterns, id62.PatternString) && wellKnownStringPatterns[id62.PatternString] == "id62"
+//@   ensures string.len: result1 == nil && typeis(result0, *schema_j5pb.Field_String_) && hasVStr(ext) ==> rStr(result0) != nil && rStr(result0).Rules != nil
+//@   |   && rStr(result0).Rules.MinLength == vStr(ext).MinLen && rStr(result0).Rules.MaxLength == vStr(ext).MaxLen
+//@   ensures string.pattern: result1 == nil && typeis(result0, *schema_j5pb.Field_String_) && hasVStr(ext) && vStr(ext).Pattern != nil && !has(wellKnownStringPatterns, *vStr(ext).Pattern) ==>
+//@   |   rStr(result0).Rules.Pattern != nil && *rStr(result0).Rules.Pattern == *vStr(ext).Pattern
+//@   ensures key.id62: result1 == nil && hasVStr(ext) && vStr(ext).Pattern != nil && *vStr(ext).Pattern == id62.PatternString && vStr(ext).WellKnown == nil && ext.list == nil ==>
+//@   |   typeis(result0, *schema_j5pb.Field_Key) && rKey(result0) != nil && rKey(result0).Format != nil && typeis(rKey(result0).Format.Type, *schema_j5pb.KeyFormat_Id62)
+//@   ensures key.uuid: result1 == nil && hasVStr(ext) && vStr(ext).Pattern == nil && typeis(vStr(ext).WellKnown, *validate.StringRules_Uuid) && as(*validate.StringRules_Uuid, vStr(ext).WellKnown).Uuid && ext.list == nil ==>
+//@   |   typeis(result0, *schema_j5pb.Field_Key) && rKey(result0) != nil && rKey(result0).Format != nil && typeis(rKey(result0).Format.Type, *schema_j5pb.KeyFormat_Uuid)
+//@   ensures key.custom: result1 == nil && hasVStr(ext) && vStr(ext).Pattern != nil && !has(wellKnownStringPatterns, *vStr(ext).Pattern) && vStr(ext).WellKnown == nil && ext.list == nil
+//@   |   && ext.j5 != nil && typeis(ext.j5.Type, *ext_j5pb.FieldOptions_Key) && jKey(ext) != nil && typeis(jKey(ext).Type, *ext_j5pb.KeyField_Pattern) ==>
+//@   |   typeis(result0, *schema_j5pb.Field_Key) && rKey(result0) != nil && rKey(result0).Format != nil && typeis(rKey(result0).Format.Type, *schema_j5pb.KeyFormat_Custom_)
+//@   |   && as(*schema_j5pb.KeyFormat_Custom_, rKey(result0).Format.Type).Custom.Pattern == as(*ext_j5pb.KeyField_Pattern, jKey(ext).Type).Pattern
+//@   ensures plain: result1 == nil && ext.validate == nil && ext.list == nil && ext.j5 == nil && extof(ext_j5pb.E_Key, descOpts(src)) == nil ==> typeis(result0, *schema_j5pb.Field_String_)
